@@ -144,7 +144,7 @@ function __mkCmp(ret, at, fx) {
 		if (n++ === at) __fx(fx);
 		switch (ret) {
 		case "rev": return a < b ? 1 : a > b ? -1 : 0;
-		case "mod4": return typeof a === "bigint" ? Number(a % 4n) - Number(b % 4n) : a % 4 - b % 4;
+		case "mod4": return (typeof a === "bigint" ? Number(a % 4n) - Number(b % 4n) : a % 4 - b % 4) || 0; // never -0, see NOTES.md
 		case "zero": return 0;
 		case "nan": return NaN;
 		case "neg0": return -0;
